@@ -115,7 +115,7 @@ func BuildDependency(argumentListContext *parser.ArgumentListContext) *core_doma
 }
 
 func ConvertToJDep(result string) *core_domain.CodeDependency {
-	withQuote := strings.ReplaceAll(result, "'", "")
+	withQuote := strings.ReplaceAll(strings.ReplaceAll(result, "'", ""), "\"", "")
 	split := strings.Split(withQuote, ":")
 	return core_domain.NewCodeDependency(split[0], split[1])
 }
